@@ -2,8 +2,10 @@
 (* Batch validation of accept/reject traces recorded from the real          *)
 (* aiocoap.oscore code (ReplayWindow driven directly, and full unprotect()  *)
 (* between two security contexts) against ReplayWindow.tla.  One initial    *)
-(* state per trace.  Trace[1] is a start record (W, init); every further    *)
-(* record is an arrival [n, auth, echo, res, idx, seen].  Per event:        *)
+(* state per trace.  Trace[1] is a start record (W, init, hasEcho); every   *)
+(* further record is an event [k, c, n, auth, how, echo, res, idx, seen]    *)
+(* (numbers near 2^40-1 arrive here translated to the neighbourhood of the  *)
+(* model's Top: TLC integers are 32 bit).  Per event:                       *)
 (*  - monitor: the clauses of C12 are evaluated on the recorded outcome;    *)
 (*  - strict: the outcome and (where logged) the window projection are      *)
 (*    compared with the model's own Step; a difference that breaks no       *)
@@ -13,24 +15,31 @@ EXTENDS ReplayWindow, Json, IOUtils, TLCExt
 
 Traces == JsonDeserialize(IOEnv.TRACE_FILE)
 
-VARIABLES tid, firstBad
+VARIABLES tid, firstBad,
+          cnt     \* clause -> number of events of this trace on which it was evaluated non-vacuously
 
-tvars == <<vars, tid, firstBad>>
+tvars == <<vars, tid, firstBad, cnt>>
+
+ClauseNames == {"C12_AcceptAtMostOnce", "C12_BelowWindowRejected", "C12_AboveAllAccepted",
+                "C12_InWindowUnseenAccepted", "C12_ForgeryNoEffect", "C12_UninitialisedNeedsEcho",
+                "C12_ResponseNoEffect"}
 
 TInit == /\ tid \in 1..Len(Traces)
          /\ LET s == Traces[tid][1]
             IN /\ st = StInit(s.init, s.hasEcho)
                /\ obs = ObsInit(s.W, s.init, s.hasEcho)
          /\ len = 1 /\ act = NoAct /\ hist = << >> /\ firstBad = {}
+         /\ cnt = [c \in ClauseNames |-> 0]
 
 TNext ==
   /\ len < Len(Traces[tid])
   /\ LET raw == Traces[tid][len + 1]
-         e   == [k |-> raw.k, n |-> raw.n, auth |-> raw.auth, echo |-> raw.echo, res |-> raw.res,
-                 idx |-> raw.idx, seen |-> ToSet(raw.seen)]
-         r   == IF e.k = "resp" THEN StepResp(st, e.n) ELSE Step(st, obs.W, e.n, e.auth, e.echo)
+         e   == [k |-> raw.k, c |-> raw.c, n |-> raw.n, auth |-> raw.auth, how |-> raw.how, echo |-> raw.echo,
+                 res |-> raw.res, idx |-> raw.idx, seen |-> ToSet(raw.seen)]
+         r   == IF e.k = "resp" THEN StepResp(st, e.n, e.auth) ELSE Step(st, obs.W, e.n, e.auth, e.echo)
          differs == \/ r.res # e.res
                     \/ e.idx # -1 /\ (e.idx # ProjIdx(r.st) \/ e.seen # ProjSeen(r.st))
+         app == Applicable(obs, e)
          o1  == ObsArrive(obs, e)
          o2  == IF differs THEN Flag(o1, {"DRIFT_model"}) ELSE o1
      IN /\ obs' = o2
@@ -40,10 +49,11 @@ TNext ==
                  ELSE IF e.idx = -2 THEN StInit(FALSE, st.echo)
                  ELSE [st EXCEPT !.init = TRUE, !.index = e.idx, !.seen = e.seen]
         /\ firstBad' = firstBad \cup {<<c, len>> : c \in o2.bad \ obs.bad}
+        /\ cnt' = [c \in ClauseNames |-> IF c \in app THEN cnt[c] + 1 ELSE cnt[c]]
   /\ len' = len + 1
   /\ UNCHANGED <<act, hist, tid>>
 
 TSpec == TInit /\ [][TNext]_tvars
 
-Report == (len = Len(Traces[tid])) => PrintT(<<"TRACE", tid, len, firstBad>>)
+Report == (len = Len(Traces[tid])) => PrintT(<<"TRACE", tid, len, firstBad>>) /\ PrintT(<<"COUNT", tid, cnt>>)
 =============================================================================
